@@ -155,8 +155,8 @@ fn parse_source_square(game: &Game, src: &str, dst: Square) -> Result<Square, Pa
 
     let ambiguity_resolution = parse_ambiguity_resolution(&src_chars)?;
 
-    // No piece letter, so this is a pawn move
-    let matching_source_squares: Vec<Square> = piece_moves
+    // No piece letter, so this is a pawn move (the promotions from one square count once)
+    let matching_source_squares: HashSet<Square> = piece_moves
         .into_iter()
         .filter(|&(piece, mv)| {
             piece == PieceKind::Pawn && mv.dst() == dst && ambiguity_resolution.satisfied_by(mv)
@@ -165,7 +165,7 @@ fn parse_source_square(game: &Game, src: &str, dst: Square) -> Result<Square, Pa
         .collect();
 
     assert_eq!(matching_source_squares.len(), 1);
-    Ok(*matching_source_squares.first().unwrap())
+    Ok(*matching_source_squares.iter().next().unwrap())
 }
 
 fn parse_destination_square(sq: &str) -> Result<Square, ParseError> {
